@@ -19,11 +19,11 @@ var fileOpts = &syntax.FileOptions{Set: true, TopLevelControl: true, GlobalReass
 // Case is one module program (graph + outcome); Node/Op narrow a violation
 // down to one operation on one node.
 type Case struct {
-	Graph   Graph  `json:"graph"`
-	Outcome string `json:"outcome"` // ok | fail
-	Node    int    `json:"node"`
-	Op      string `json:"op,omitempty"`
-	Src     string `json:"src,omitempty"`
+	Graph   Graph      `json:"graph"`
+	Outcome string     `json:"outcome"` // ok | fail
+	Node    int        `json:"node"`
+	Op      string     `json:"op,omitempty"`
+	Src     string     `json:"src,omitempty"`
 	Early   *earlyCase `json:"early_freeze_case,omitempty"`
 }
 
@@ -107,26 +107,26 @@ func (s envSnap) diff(d starlark.StringDict) string {
 
 // run is one executed module with everything the oracle needs.
 type modRun struct {
-	g        *Graph
-	outcome  string
-	src      string
-	th       *starlark.Thread
-	globals  starlark.StringDict
-	second   starlark.StringDict
-	nodes    []starlark.Value
-	reach    []bool
-	pre      starlark.StringDict
-	preSnap  envSnap
-	uniSnap  envSnap
-	hostv    *starlark.List
+	g         *Graph
+	outcome   string
+	src       string
+	th        *starlark.Thread
+	globals   starlark.StringDict
+	second    starlark.StringDict
+	nodes     []starlark.Value
+	reach     []bool
+	pre       starlark.StringDict
+	preSnap   envSnap
+	uniSnap   envSnap
+	hostv     *starlark.List
 	skipPrint bool
-	stats    *counters
-	knownIDs map[any]bool
+	stats     *counters
+	knownIDs  map[any]bool
 }
 
 type counters struct {
 	attempts, mutatorAttempts, reads, twinRuns, panics, unreachableMutations, derivedValues, derivedMutations int64
-	opsByKind                                                        map[string]int64
+	opsByKind                                                                                                 map[string]int64
 }
 
 // execGraph runs the module program. harnessErr is set when the generated
@@ -143,9 +143,9 @@ func execGraph(g *Graph, outcome string, st *counters) (r *modRun, harnessErr st
 		// frozen values that the host supplies: operands of +, | inside the module
 		"libclo": libFactories()["libclo"],
 		"libdef": libFactories()["libdef"],
-		"hfs": frozenValue(starlarkstruct.FromStringDict(starlarkstruct.Default, starlark.StringDict{"z": starlark.MakeInt(1), "w": starlark.NewList([]starlark.Value{starlark.MakeInt(7)})})),
-		"hft": frozenValue(starlark.Tuple{starlark.MakeInt(1), starlark.NewList([]starlark.Value{starlark.MakeInt(7)})}),
-		"hfl": frozenValue(starlark.NewList([]starlark.Value{starlark.MakeInt(7)})),
+		"hfs":    frozenValue(starlarkstruct.FromStringDict(starlarkstruct.Default, starlark.StringDict{"z": starlark.MakeInt(1), "w": starlark.NewList([]starlark.Value{starlark.MakeInt(7)})})),
+		"hft":    frozenValue(starlark.Tuple{starlark.MakeInt(1), starlark.NewList([]starlark.Value{starlark.MakeInt(7)})}),
+		"hfl":    frozenValue(starlark.NewList([]starlark.Value{starlark.MakeInt(7)})),
 		"hfd": frozenValue(func() starlark.Value {
 			d := new(starlark.Dict)
 			d.SetKey(starlark.String("h"), starlark.NewList([]starlark.Value{starlark.MakeInt(7)}))
@@ -399,7 +399,7 @@ type opSpec struct {
 	callsFn bool
 	// second: executed by a function of the second module
 	second bool
-	apply   func(r *modRun, th *starlark.Thread, x starlark.Value) (starlark.Value, error)
+	apply  func(r *modRun, th *starlark.Thread, x starlark.Value) (starlark.Value, error)
 }
 
 var (
